@@ -107,6 +107,22 @@ def run(ctx):
             perm2 = rng.permutation(k)
             c["alt_labelings"] = [[int(perm2[g]) for g in base], ["k%02d" % (9 - g) for g in base]]
         spi.append(c)
+    # bounds given as date-only strings (they name the instant 00:00, not the whole day) on axes with steps later in that day
+    for it in range(12 * N):
+        n = int(rng.integers(6, 40))
+        axis = sorted(set(int(24 * d + h) for d, h in zip(np.cumsum(rng.integers(0, 3, size=n)), rng.choice([0, 6, 12, 18], size=n))))
+        if len(axis) < 5:
+            continue
+        days = sorted(set(a // 24 for a in axis))
+        b = 24 * int(days[int(rng.integers(0, len(days) // 2))])
+        e = 24 * int(days[int(rng.integers(len(days) // 2, len(days)))])
+        data = np.maximum(1, np.round(rng.gamma(2.0, 30.0, size=(1, 2, len(axis))))).astype(int)
+        c = dict(time=axis, b=b, e=e, data=data.tolist(), nodata=-9999, as_str="date")
+        if it % 2:
+            c["groups"] = [int(i % 2) for i in range(len(axis))]
+            c["alt_labelings"] = []
+        spi.append(c)
+        cal.append(dict(time=axis, b=b, e=e, as_str="date", groups=c.get("groups"), k=2 if it % 2 else None))
     payload = dict(calidx=[{k: v for k, v in c.items() if k != "k"} for c in cal],
                    linspace=[{k: v for k, v in c.items() if k != "kind"} for c in lin], spi=spi)
     res, log = core.run_impl("c09_impl.py", payload, timeout=2400)
